@@ -203,3 +203,33 @@ Proof. timeout 120 vm_compute. reflexivity. Qed.
 
 Example ex6 : match decode_frame default_config None (enc_frame ex_p 0 [EBComp ex_payload ex_regen]) with Ok (out, _, rest) => (out, rest) | Err _ _ => ([], [1]) end = (ex_regen, []).
 Proof. timeout 120 vm_compute. reflexivity. Qed.
+
+(* ---- Huffman-compressed literals (coq/Codec/EncodeHuf.v: HUF_compress1X / 4X_usingCTable, literals section header) ---- *)
+From ZV.Codec Require Import EncodeHuf EncodeHufProofs.
+
+(* one stream: the code of every symbol is its path in the decoding tree; any symbol list, any tree *)
+Theorem C01_huffman_stream_round_trip : forall t syms bytes,
+  enc_huf1 t syms = Some bytes -> huf_decode1 t (lenN syms) bytes = Ok syms.
+Proof. exact huf_decode1_enc. Qed.
+Print Assumptions C01_huffman_stream_round_trip.
+
+(* four streams with the 6-byte jump table *)
+Theorem C01_huffman_4streams_round_trip : forall t syms bytes,
+  6 <= lenN syms -> enc_huf4 t syms = Some bytes ->
+  (forall part b, enc_huf1 t part = Some b -> lenN b < 65536) ->
+  huf_decode4 t (lenN syms) bytes = Ok syms.
+Proof. exact huf_decode4_enc. Qed.
+Print Assumptions C01_huffman_4streams_round_trip.
+
+(* a whole Huffman-compressed literals section, every size format, with tree description or treeless: it is a literals
+   section in the sense required by C01_compressed_block_round_trip (same conclusion shape, any trailing bytes) *)
+Theorem C01_huffman_literals_section_round_trip : forall blockMax prev ltype sf treedesc ht lits tail sec,
+  (ltype = 2 \/ (ltype = 3 /\ prev = Some ht /\ treedesc = [])) -> sf < 4 ->
+  lenN lits <= blockMax ->
+  (sf = 0 \/ 6 <= lenN lits) ->
+  (forall part b, enc_huf1 (h_tree ht) part = Some b -> lenN b < 65536) ->
+  (ltype = 2 -> forall streams, read_huf_table LitHufLog (treedesc ++ streams) = Ok (ht, lenN treedesc)) ->
+  enc_lits_huf ltype sf treedesc (h_tree ht) lits = Some sec ->
+  decode_literals blockMax prev (sec ++ tail) = Ok (lits, Some ht, lenN sec, ltype + (if sf =? 0 then 0 else 4)).
+Proof. exact decode_lits_huf. Qed.
+Print Assumptions C01_huffman_literals_section_round_trip.
